@@ -384,7 +384,10 @@ def _typed(n, env):
     elif kind == "enum":
         operand = literal("a", type_=String)
     elif kind == "dt":
+        # SQLite has no date type: CAST('2020-01-02 ...' AS DATETIME) has NUMERIC affinity and yields the integer 2020, which the
+        # DateTime result processor rightly refuses; the value only round-trips through type_coerce
         operand = literal("2020-01-02 03:04:05.000000", type_=String)
+        mode = 1
     else:
         operand = _col(bx(e, env))
     return type_coerce(operand, typ) if mode == 1 else cast(operand, typ)
